@@ -12,6 +12,9 @@ def replay(path):
         for v in rec.get('verifier_output', []):
             print(v)
         return 0
+    if rec.get('driver', '').startswith('kext:'):
+        import kani_extract
+        return kani_extract.replay(rec)
     if rec.get('driver', '').startswith('kani:'):
         import kani_lane
         return kani_lane.replay(rec)
